@@ -348,16 +348,18 @@ example : weight { master := ⟨500, 1000000, 1000000⟩, children := [⟨300, 1
 
 /-! ## Custody -/
 
-/-- **Custody**: after ANY sequence of operations from the empty ledger — gauge creations (accepted or rejected),
-external-programme creations, donations, begin blockers consisting of any gauge triggers / programme payouts /
-deactivations in any order with any distribution data (a panicking block is rolled back) — the rewards module
-account holds at least the sum of all gauges' undistributed remainders plus all programmes' available rewards,
-and every gauge's remainder is non-negative. -/
-theorem custody_ge_remaining (ops : List Op) (l : Ledger) (hl : l = run Ledger.empty ops) :
-    remGauges l.gauges + remExts l.exts ≤ l.bal ∧
+/-- **Custody**: after ANY sequence of operations from the empty ledger — gauge creations (accepted or rejected), pool
+creations (swap-fee gauges), external-programme creations, donations, begin blockers consisting of any gauge triggers /
+swap-fee gauge triggers / programme payouts / deactivations in any order with any distribution data (a panicking block is
+rolled back) — in which no swap-fee trigger is a leak (`noLeak`: a distribution that paid followed by a FAILED transfer,
+see `sf_gauge_leak_counterexample`), the rewards module account holds at least the sum of all gauges' undistributed
+remainders plus all swap-fee gauges' deposits plus all programmes' available rewards, and every gauge's remainder is
+non-negative. -/
+theorem custody_ge_remaining (ops : List Op) (l : Ledger) (hl : l = run Ledger.empty ops) (hk : noLeak Ledger.empty ops = true) :
+    remGauges l.gauges + remExts l.exts + remSfs l.sfs ≤ l.bal ∧
     ∀ g ∈ l.gauges, 0 ≤ gaugeRem g ∧ 0 ≤ g.distributed ∧ g.triggered ≤ g.total := by
   subst hl
-  obtain ⟨hg, hb⟩ := run_inv Ledger.empty ops empty_inv
+  obtain ⟨hg, hb⟩ := run_inv Ledger.empty ops empty_inv hk
   refine ⟨hb, fun g hgm => ?_⟩
   have h := hg g hgm
   have := GInv_le_deposit g h
@@ -366,13 +368,45 @@ theorem custody_ge_remaining (ops : List Op) (l : Ledger) (hl : l = run Ledger.e
 /-- the clause as worded (ACTIVE gauges and programmes).  The hypothesis that no programme's `AvailableRewards`
 is negative is NOT enforced by the code (`AvailableRewards -= tracker` without comparison); the monitor tests it. -/
 theorem custody_ge_active_remaining (ops : List Op) (l : Ledger) (hl : l = run Ledger.empty ops)
-    (hx : ∀ x ∈ l.exts, 0 ≤ x.avail) :
-    remActiveGauges l.gauges + remActiveExts l.exts ≤ l.bal := by
+    (hk : noLeak Ledger.empty ops = true) (hx : ∀ x ∈ l.exts, 0 ≤ x.avail) :
+    remActiveGauges l.gauges + remActiveExts l.exts + remSfs l.sfs ≤ l.bal := by
   subst hl
-  obtain ⟨hg, hb⟩ := run_inv Ledger.empty ops empty_inv
+  obtain ⟨hg, hb⟩ := run_inv Ledger.empty ops empty_inv hk
   have h1 := remActiveGauges_le _ hg
   have h2 := remActiveExts_le _ hx
   omega
+
+/-- **One swap-fee epoch**: what is handed out is at most what the gauge collected at the previous epoch (its
+`DepositAmount`), every coin is non-negative, nothing is handed out from an empty gauge; and when the epoch is counted the
+record moves by exactly what was paid and what arrived: `deposit' = deposit − paid + received`. -/
+theorem sf_epoch_pays_le_collected (g g' : SfGauge) (d : DistData) (x : Xfer) (sends : List Int) (recv : Int)
+    (h : sfTrigger g d x = .ok (g', sends, recv)) :
+    (∀ r ∈ sends, 0 ≤ r) ∧ 0 ≤ recv ∧ (0 < g.deposit → sumL sends ≤ g.deposit) ∧ (g.deposit ≤ 0 → sends = []) ∧
+    (g'.triggered = g.triggered + 1 →
+      g'.deposit = g.deposit - sumL sends + recv ∧ g'.distributed = g.distributed + sumL sends) := by
+  obtain ⟨h1, h2, h3, h4, hc⟩ := sfTrigger_cases g g' d x sends recv h
+  refine ⟨h1, h2, h3, h4, ?_⟩
+  intro ht
+  rcases hc with ⟨rfl, _, _⟩ | ⟨amt, _, rfl, hd, hdi, _⟩
+  · omega
+  · exact ⟨hd, hdi⟩
+
+example : sfTrigger { deposit := 36000, distributed := 0, triggered := 1 } (.ok [35999]) (.ok 500)
+    = .ok ({ deposit := 501, distributed := 35999, triggered := 2 }, [35999], 500) := by decide
+
+/-- **A swap-fee gauge can pay the same deposit again and again** (gauge.go:266-287): the distribution is paid, then
+`TransferFundsForSwapFeeDistribution` fails (two pools on the pair and the oracle price of one side missing) and the loop
+`continue`s before `SetGauge` — the record keeps `DepositAmount = 36000`.  Three epochs later 108 000 have left the module
+account for 36 000 collected, and an ordinary gauge's 100 000 in the same account are backed by 28 000. -/
+theorem sf_gauge_leak_counterexample :
+    sfTrigger { deposit := 36000, distributed := 0, triggered := 1 } (.ok [36000]) .err
+      = .ok ({ deposit := 36000, distributed := 0, triggered := 1 }, [36000], 0) ∧
+    run Ledger.empty
+      [.createGauge 100000 10 1000 0 86400000000000 43200000000000 true 100000, .createSf,
+       .block [.sfTrigger 0 (.ok []) (.ok 36000)],
+       .block [.sfTrigger 0 (.ok [36000]) .err], .block [.sfTrigger 0 (.ok [36000]) .err], .block [.sfTrigger 0 (.ok [36000]) .err]]
+    = { bal := 28000, gauges := [newGauge 100000 10 1000], exts := [], sfs := [{ deposit := 36000, distributed := 0, triggered := 1 }] } := by
+  constructor <;> decide
 
 /-- **The external programmes have no `paid ≤ available` guard, and their share arithmetic can exceed it**
 (iter.go:60-90): 9·10¹⁸ base units available on the last day, six lockers with equal balances ⇒ each share is
@@ -391,7 +425,7 @@ theorem ext_overpay_counterexample :
 /-- under the invariant the bank can never refuse a gauge's reward send for lack of funds: every receiver gets
 exactly the calculated reward -/
 theorem farmers_receive_calculated (l : Ledger) (hl : LInv l) (hx : ∀ x ∈ l.exts, 0 ≤ x.avail)
-    (i : Nat) (g g' : Gauge) (now : Int) (d : DistData) (sends : List Int)
+    (hsf : ∀ s ∈ l.sfs, 0 ≤ s.deposit) (i : Nat) (g g' : Gauge) (now : Int) (d : DistData) (sends : List Int)
     (hg : l.gauges[i]? = some g) (ht : trigger g now d = .ok (g', sends)) :
     sendAll l.bal sends = (l.bal - sumL sends, sends) := by
   obtain ⟨hgi, hb⟩ := hl
@@ -399,6 +433,7 @@ theorem farmers_receive_calculated (l : Ledger) (hl : LInv l) (hx : ∀ x ∈ l.
   apply sendAll_exact sends hnn
   have h1 := gaugeRem_le_remGauges l.gauges hgi g (List.mem_of_getElem? hg)
   have h2 := remExts_nonneg l.exts hx
+  have h3 := remSfs_nonneg l.sfs hsf
   rcases hc with rfl | ⟨_, _, hs, hcap⟩
   · have := GInv_le_deposit g (hgi g (List.mem_of_getElem? hg))
     simp only [sumL, gaugeRem] at *; omega
